@@ -300,7 +300,9 @@ class _State:
                 fnames = [str(i) for i in range(len(subs))] if k == 'ts' else [f[0] for f in p.get('fs', [])]
                 for fname, s in zip(fnames, subs):
                     if s.get('k') == 'bind' and s.get('t', '').lstrip('&') in INT_TYPES:
-                        lab = L(f'{short(path)}.{fname}')
+                        # an earlier arm of the same match with a literal at this position tested the value
+                        tested = (path, fname) in getattr(self, '_lit_tested', ())
+                        lab = L(f'{short(path)}.{fname}', -1, tested)
                         self.env[s['i']] = self.get(s['i']) | {lab}
         for s in p.get('subs', []) + [f[1] for f in p.get('fs', [])] + ([p['sub']] if 'sub' in p else []):
             if isinstance(s, dict):
@@ -383,8 +385,20 @@ class _State:
         return self.ev(n['e'])
 
     def ev_bin(self, n):
-        a, b = self.ev(n['a']), self.ev(n['b'])
         op = n.get('op')
+        if op in ('||', '&&'):
+            # short-circuit: the right operand is only evaluated after the left one tested its values
+            self.ev(n['a'])
+            ns = self.cond_names(n['a'])
+            saved = dict(self.env)
+            saved_cn = set(self.checked_names)
+            if ns:
+                self.sanitize(ns)
+            self.ev(n['b'])
+            self.env = saved
+            self.checked_names = saved_cn
+            return frozenset()
+        a, b = self.ev(n['a']), self.ev(n['b'])
         if op in ('<', '<=', '>', '>=', '==', '!=', '&&', '||'):
             return frozenset()
         t = n.get('t', '')
@@ -613,6 +627,7 @@ class _State:
         saved = dict(self.env)
         envs = []
         any_lit_div = False
+        self._lit_tested = set()
         for a in n['arms']:
             self.env = dict(saved)
             lit = _is_lit_pat(a['pat'])
@@ -627,6 +642,8 @@ class _State:
                 if gns:
                     self.sanitize(gns)
             r = self.ev(a['body'])
+            for (pp, pos) in _lit_positions(a['pat']):
+                self._lit_tested.add((pp, pos))
             if not diverges(a['body']):
                 out |= r
                 envs.append(self.env)
@@ -837,6 +854,24 @@ def _is_lit_pat(p):
     if k == 'ts' and p.get('dk') == 'Variant':
         return all(_is_lit_pat(s) for s in p.get('subs', [])) if p.get('subs') else True
     return False
+
+
+def _lit_positions(p):
+    """(variant path, field) positions matched against a literal by this pattern (other positions catch-all)"""
+    out = []
+    k = p.get('k')
+    if k == 'ref':
+        return _lit_positions(p['sub'])
+    if k == 'or':
+        for s in p.get('subs', []):
+            out += _lit_positions(s)
+        return out
+    if k == 'ts' and 'p' in p:
+        subs = p.get('subs', [])
+        for i, s in enumerate(subs):
+            if s.get('k') in ('lit', 'range') and all(x.get('k') in ('wild', 'bind') for j, x in enumerate(subs) if j != i):
+                out.append((norm(p['p']), str(i)))
+    return out
 
 
 def is_assert_like(ifnode, arm):
